@@ -21,19 +21,22 @@
 ** part=ops       copy(x) of a stack and of a heap x; assign(y,x) into a zeroed fresh object,
 **                a default-constructed one, and (ALL ordered pairs) one holding another
 **                value; swap(a,b) for ALL ordered pairs (heap x heap, and stack x stack
-**                where the type permits, and two elements embedded in an Array with a
-**                bystander between them), swap(a,a); sort() of an Array holding the whole grid
+**                where the type permits, two elements embedded in an Array between guard
+**                elements g0 a g1 b g2 whose slots must keep every byte, an Array element against a
+**                stack object; heap/stack objects carry canary zones behind them), swap(a,a); sort() of an Array holding the whole grid
 **                (it exchanges elements with swap) in 4 initial orders.
 **                Domains raw, raw1, raw3, raw4, raw7, raw9, raw12, raw16, raw20, raw21 are plain
 **                structs of that many bytes without Cmp/Hash/Assign/Swap instances: the default
-**                memcmp / hash_data / memcpy / memswap paths with every tail length.
+**                memcmp / hash_data / memcpy / memswap paths with every tail length.  raw63, raw64,
+**                raw65, raw72, raw100, raw127, raw128, raw129, raw200, raw300: structs bigger than the
+**                64/128-byte blocks of a block-wise copy (rawbig selects them).
 **
 ** Parameters: part=all|comma list   dom=all|comma list of int,float,string,type,raw,raw1..raw21,ref,box
 **             (rawall = every raw* domain)
 **             grid=small|large
 ** Case keys (replayable): "hashdata <pat> <len> <align>", "values <dom> <i> <class>",
 **   "pairs <dom> <i> <j>", "copy <dom> <i> <src>", "assign <dom> <i> <j>" (j = -1 zeroed
-**   fresh, -2 default-constructed fresh), "swap <dom> <i> <j> <heap|stack|array>", "sort <dom> <order>".
+**   fresh, -2 default-constructed fresh), "swap <dom> <i> <j> <heap|stack|array|array-stack>", "sort <dom> <order>".
 */
 
 #include "vf_cmp.h"
@@ -210,13 +213,36 @@ static const char* h_feat(int i, int j) {
 }
 
 /* a stack-class object in caller storage: exactly what $(T, payload) builds */
-#define STACKBUF(name) char name[sizeof(struct Header) + 32] __attribute__((aligned(16))) = {0}
+#define CANARY 72                       /* bytes behind an object that a swap / assign must leave alone */
+#define STACKBUF(name) char name[sizeof(struct Header) + RAWMAX + 8 + CANARY] __attribute__((aligned(16))) = {0}
+static size_t h_size(void) { return H.raw ? RW->size : 8; }
 static var mk_stack(char* buf, int i) {
-  memset(buf, 0, sizeof(struct Header) + 32);
+  memset(buf, 0, sizeof(struct Header) + RAWMAX + 8 + CANARY);
   var x = header_init(buf, H.type, AllocStack);
   h_payload(i, x);
   return x;
 }
+/* fill / verify the zone right behind object x (which lives in a STACKBUF or a mk_heap block) */
+static void canary_set(var x, unsigned char c) { memset((char*)x + h_size(), c, CANARY); }
+static int canary_ok(var x, unsigned char c) {
+  const unsigned char* p = (const unsigned char*)x + h_size();
+  for (int k = 0; k < CANARY; k++) if (p[k] != c) return 0;
+  return 1;
+}
+/* a heap-class object of a raw struct type in a block that has a canary zone behind the object, so that
+** an overrun is seen without a sanitizer too (header_init(..., AllocHeap) is what alloc_raw does) */
+static var mk_heap(int i) {
+  if (!H.raw) { STACKBUF(wb); return new_raw_with(H.type, tuple(mk_stack(wb, i))); }
+  char* blk = calloc(1, sizeof(struct Header) + RW->size + CANARY);
+  var x = header_init(blk, H.type, AllocHeap);
+  h_payload(i, x);
+  return x;
+}
+/* snapshot of a whole Array slot (header and payload) of element x */
+static void slot_snapshot(var x, unsigned char* out) { memcpy(out, (char*)x - sizeof(struct Header), sizeof(struct Header) + h_size()); }
+static void slot_restore(var x, const unsigned char* snap) { memcpy((char*)x - sizeof(struct Header), snap, sizeof(struct Header) + h_size()); }
+static int slot_unchanged(var x, const unsigned char* snap) { return memcmp((char*)x - sizeof(struct Header), snap, sizeof(struct Header) + h_size()) == 0; }
+#define SLOTMAX (sizeof(struct Header) + RAWMAX + 8)
 
 /* release helpers: a Box would delete its target */
 static void unbox(var x) { if (H.type == Box) ref(x, NULL); }
@@ -373,7 +399,12 @@ static void assign_case(int i, int j) {
   STACKBUF(wb); STACKBUF(ob);
   var w = mk_stack(wb, i);
   uint64_t hw = hash(w);
-  var y = j == -1 ? alloc_raw(H.type) : j == -2 ? new_raw_with(H.type, tuple()) : new_raw_with(H.type, tuple(mk_stack(ob, j)));
+  var y;
+  if (H.raw && j != -2) {               /* target in a block with a canary zone behind it (zeroed payload for j == -1) */
+    y = mk_heap(j >= 0 ? j : 0);
+    if (j < 0) memset(y, 0, h_size());
+    canary_set(y, 0xC3);
+  } else y = j == -1 ? alloc_raw(H.type) : j == -2 ? new_raw_with(H.type, tuple()) : new_raw_with(H.type, tuple(mk_stack(ob, j)));
   /* source alternates between the stack witness and a heap object */
   var x = (i + (j < 0 ? 0 : j)) & 1 ? new_raw_with(H.type, tuple(w)) : w;
   volatile var rv_ = NULL;
@@ -390,6 +421,10 @@ static void assign_case(int i, int j) {
     }
     vf.evaluations++;
     if (!h_same(x, i) || hash(x) != hw) vf_violation(L(H.name, cls, "source-changed"), NULL, "assign changed its source");
+    if (H.raw && j != -2) {
+      vf.evaluations++;
+      if (!canary_ok(y, 0xC3)) vf_violation(L(H.name, cls, "writes-beyond-object"), NULL, "assign changed bytes behind the %zu-byte target", h_size());
+    }
     if (j >= 0 && !h_refeq(i, j)) vf.nontrivial++;
   }
   if (x != w) drop_raw(x);
@@ -404,8 +439,10 @@ static void swap_case(int i, int j, int stackmode) {
   STACKBUF(wa); STACKBUF(wb); STACKBUF(sa); STACKBUF(sb);
   var vi = mk_stack(wa, i), vj = mk_stack(wb, j);
   uint64_t hi = hash(vi), hj = hash(vj);
-  var a = stackmode ? mk_stack(sa, i) : new_raw_with(H.type, tuple(vi));
-  var b = stackmode ? mk_stack(sb, j) : new_raw_with(H.type, tuple(vj));
+  var a = stackmode ? mk_stack(sa, i) : mk_heap(i);
+  var b = stackmode ? mk_stack(sb, j) : mk_heap(j);
+  int guarded = stackmode || H.raw;     /* the bytes behind a and b are ours and carry two different canaries */
+  if (guarded) { canary_set(a, 0xA5); canary_set(b, 0x5A); }
   var ex = VF_CATCH(swap(a, b));
   vf.evaluations++;
   if (ex) vf_violation(L(H.name, cls, "raises"), NULL, "swap raised %s", vf_exc_name(ex));
@@ -420,12 +457,17 @@ static void swap_case(int i, int j, int stackmode) {
       vf.evaluations++;
       if (ex2 || !h_same(a, j) || hash(a) != hj) vf_violation(L(H.name, cls, "self-swap"), NULL, "swap(a,a) changed a or raised");
     }
+    if (guarded) {
+      vf.evaluations++;
+      if (!canary_ok(a, 0xA5) || !canary_ok(b, 0x5A)) vf_violation(L(H.name, cls, "writes-beyond-object"), NULL, "swap(a,b) changed bytes behind the %zu-byte objects", h_size());
+    }
     if (!h_refeq(i, j)) vf.nontrivial++;
   }
   if (!stackmode) { drop_raw(a); drop_raw(b); }
 }
 
-/* two elements embedded in an Array (with a bystander between them) are swapped in place */
+/* two elements embedded in an Array are swapped in place; guard elements on both sides of each
+** (layout g0 a g1 b g2, g1 and g2 holding different values) must keep every byte, header included */
 static void swap_array_case(int i, int j) {
   char ds[96], da[40], db[40]; h_desc(i, da, sizeof da); h_desc(j, db, sizeof db);
   snprintf(ds, sizeof ds, "a=%s b=%s", da, db);
@@ -433,23 +475,67 @@ static void swap_array_case(int i, int j) {
   if (!begin_case(ds, "swap %s %d %d array", H.name, i, j)) return;
   STACKBUF(wa); STACKBUF(wb); STACKBUF(wf);
   var vi = mk_stack(wa, i), vj = mk_stack(wb, j);
-  int fi = filler_of(i);
-  var vfil = mk_stack(wf, fi);
-  uint64_t hi = hash(vi), hj = hash(vj), hf = hash(vfil);
+  int f1 = filler_of(i), f2 = filler_of(f1);
+  uint64_t hi = hash(vi), hj = hash(vj);
   var arr = new_raw(Array, H.type);
-  push(arr, vi); push(arr, vfil); push(arr, vj);
-  var ex = VF_CATCH(swap(get(arr, $I(0)), get(arr, $I(2))));
+  push(arr, mk_stack(wf, f2)); push(arr, vi); push(arr, mk_stack(wf, f1)); push(arr, vj); push(arr, mk_stack(wf, f2));
+  static unsigned char snap[3][SLOTMAX];
+  static const int gidx[3] = { 0, 2, 4 };
+  int raw_slots = H.type != String;    /* a String slot holds a pointer the harness does not own; compared by value below */
+  for (int g = 0; g < 3; g++) slot_snapshot(get(arr, $I(gidx[g])), snap[g]);
+  var ex = VF_CATCH(swap(get(arr, $I(1)), get(arr, $I(3))));
   vf.evaluations++;
   if (ex) vf_violation(L(H.name, cls, "raises"), NULL, "swap raised %s", vf_exc_name(ex));
   else {
-    var a = get(arr, $I(0)), m = get(arr, $I(1)), b = get(arr, $I(2));
+    var a = get(arr, $I(1)), b = get(arr, $I(3));
     vf.evaluations += 3;
-    if (!h_same(a, j) || !h_same(b, i)) vf_violation(L(H.name, cls, "values-not-exchanged"), NULL, "after swap(arr[0],arr[2]) the two elements do not hold each other's old value");
+    if (!h_same(a, j) || !h_same(b, i)) vf_violation(L(H.name, cls, "values-not-exchanged"), NULL, "after swap(arr[1],arr[3]) the two elements do not hold each other's old value");
     else { judge(a, vj, hj, j, cls); judge(b, vi, hi, i, cls); }
-    if (!h_same(m, fi) || hash(m) != hf || len(arr) != 3) vf_violation(L(H.name, cls, "bystander-changed"), NULL, "swap(arr[0],arr[2]) changed arr[1] or the length");
+    int gbad = len(arr) != 5;
+    for (int g = 0; g < 3 && !gbad; g++) {
+      var ge = get(arr, $I(gidx[g]));
+      if (raw_slots ? !slot_unchanged(ge, snap[g]) : !h_same(ge, g == 1 ? f1 : f2)) gbad = 1 + g;
+    }
+    if (gbad) vf_violation(L(H.name, cls, "guard-element-changed"), NULL, "swap(arr[1],arr[3]) changed a neighbouring element (guard %d of g0 a g1 b g2) or the length", gbad - 1);
     if (!h_refeq(i, j)) vf.nontrivial++;
   }
-  del_raw(arr);
+  /* put the guard slots back so that releasing the array cannot trip over a torn header */
+  if (raw_slots && len(arr) == 5) for (int g = 0; g < 3; g++) slot_restore(get(arr, $I(gidx[g])), snap[g]);
+  { var e3 = VF_CATCH(del_raw(arr)); (void)e3; }
+}
+
+/* an Array element is swapped with a stack object: whatever is written behind either of them shows, because
+** the bytes behind the element (the next slot's header) and the canary behind the stack object differ */
+static void swap_array_stack_case(int i, int j) {
+  char ds[96], da[40], db[40]; h_desc(i, da, sizeof da); h_desc(j, db, sizeof db);
+  snprintf(ds, sizeof ds, "a=%s b=%s", da, db);
+  const char* cls = "swap-array-vs-stack";
+  if (!begin_case(ds, "swap %s %d %d array-stack", H.name, i, j)) return;
+  STACKBUF(wa); STACKBUF(wb); STACKBUF(wf); STACKBUF(sb);
+  var vi = mk_stack(wa, i), vj = mk_stack(wb, j);
+  int f1 = filler_of(i), f2 = filler_of(f1);
+  uint64_t hi = hash(vi), hj = hash(vj);
+  var arr = new_raw(Array, H.type);
+  push(arr, mk_stack(wf, f2)); push(arr, vi); push(arr, mk_stack(wf, f1));
+  var b = mk_stack(sb, j);
+  canary_set(b, 0x5A);
+  static unsigned char snap[2][SLOTMAX];
+  slot_snapshot(get(arr, $I(0)), snap[0]); slot_snapshot(get(arr, $I(2)), snap[1]);
+  var ex = VF_CATCH(swap(get(arr, $I(1)), b));
+  vf.evaluations++;
+  if (ex) vf_violation(L(H.name, cls, "raises"), NULL, "swap raised %s", vf_exc_name(ex));
+  else {
+    var a = get(arr, $I(1));
+    vf.evaluations += 3;
+    if (!h_same(a, j) || !h_same(b, i)) vf_violation(L(H.name, cls, "values-not-exchanged"), NULL, "after swap(arr[1], s) the two objects do not hold each other's old value");
+    else { judge(a, vj, hj, j, cls); judge(b, vi, hi, i, cls); }
+    if (len(arr) != 3 || !slot_unchanged(get(arr, $I(0)), snap[0]) || !slot_unchanged(get(arr, $I(2)), snap[1]))
+      vf_violation(L(H.name, cls, "guard-element-changed"), NULL, "swap(arr[1], s) changed a neighbouring Array slot (header or payload)");
+    if (!canary_ok(b, 0x5A)) vf_violation(L(H.name, cls, "writes-beyond-object"), NULL, "swap(arr[1], s) changed bytes behind the %zu-byte stack object", h_size());
+    if (!h_refeq(i, j)) vf.nontrivial++;
+  }
+  if (len(arr) == 3) { slot_restore(get(arr, $I(0)), snap[0]); slot_restore(get(arr, $I(2)), snap[1]); }
+  { var e3 = VF_CATCH(del_raw(arr)); (void)e3; }
 }
 
 /* sort(Array of the whole grid) exchanges elements with swap(): the result must be the grid in reference order */
@@ -482,7 +568,7 @@ static void sort_case(int order) {
     vf.nontrivial++;
   }
   if (vf_want_sample()) vf_sample("%s (%d elements)", ckey, n);
-  del_raw(arr);
+  { var e3 = VF_CATCH(del_raw(arr)); (void)e3; }
   free(sorted);
 }
 
@@ -495,6 +581,7 @@ static void part_ops(void) {
     swap_case(i, j, 0);
     if (H.can_stack_swap) swap_case(i, j, 1);
     if (H.embed) swap_array_case(i, j);
+    if (H.embed && H.can_stack_swap) swap_array_stack_case(i, j);
   }
   if (H.embed && H.can_sort) for (int order = 0; order < 4; order++) sort_case(order);
 }
@@ -549,8 +636,18 @@ static void set_domain(const char* name) {
   else { fprintf(stderr, "h_hash: unknown domain %s\n", name); _exit(2); }
 }
 
+/* an uncaught Cello exception ends in exit(1): attribute it to the case in progress and keep the results */
+static void on_uncaught_exit(void) {
+  char label[96];
+  snprintf(label, sizeof label, "%s/uncaught-exception", vf.phase ? vf.phase : "run");
+  vf.aborted = 1;
+  vf_violation(label, vf_cur_valid ? vf_cur : "(no case in progress)", "the library raised an exception nobody expected while executing the case (exploration of this instance stopped here)");
+  vf_write();
+}
+
 int main(int argc, char** argv) {
   vf_init(argc, argv);
+  atexit(on_uncaught_exit);
   vfg_build(vf_param_is("grid", "large", "small"));
   const char* parts = vf_param("part", "all");
   const char* doms = vf_param("dom", "all");
@@ -562,10 +659,10 @@ int main(int argc, char** argv) {
 
   if (part_on(parts, "hashdata")) part_hashdata();
 
-  static const char* all[] = { "int", "float", "string", "raw", "raw1", "raw3", "raw4", "raw7", "raw9", "raw12", "raw16", "raw20", "raw21", "ref", "box" };
+  static const char* all[] = { "int", "float", "string", "raw", "raw1", "raw3", "raw4", "raw7", "raw9", "raw12", "raw16", "raw20", "raw21", "raw63", "raw64", "raw65", "raw72", "raw100", "raw127", "raw128", "raw129", "raw200", "raw300", "ref", "box" };
   static char phase[32];
   for (size_t q = 0; q < sizeof all / sizeof all[0]; q++) {
-    if (!part_on(doms, all[q])) continue;
+    if (!vfg_dom_selected(doms, all[q])) continue;
     set_domain(all[q]);
     snprintf(phase, sizeof phase, "hash-%s", all[q]); vf.phase = phase;
     uint64_t ev0 = vf.evaluations, ex0 = vf.executions;
@@ -574,7 +671,7 @@ int main(int argc, char** argv) {
     if (part_on(parts, "ops")) part_ops();
     vf_extra(all[q], "{\"values\": %d, \"cases\": %" PRIu64 ", \"oracle_evaluations\": %" PRIu64 "}", H.n, vf.executions - ex0, vf.evaluations - ev0);
   }
-  if (part_on(doms, "type")) part_types(parts);
+  if (vfg_dom_selected(doms, "type")) part_types(parts);
   if (vf.replay && vf.executions == 0) vf_note("replay case not found: %s", vf.replay);
   vf_finish();
   return 0;
